@@ -225,7 +225,7 @@ def SimpOp.holds : SimpOp → Int → Int → Bool
 inductive PK where
   | leq (x y : IView)                              -- LessThanOrEquals
   | eq (x y : IView)                               -- Eq
-  | neq (x y : IView)                              -- NotEquals (no-op propagator)
+  | neq (x y : IView)                              -- NotEquals (no pruning; checked when both sides are fixed)
   | add (x y : IView) (s : Nat)                    -- Add
   | sum (xs : List IView) (s : Nat)                -- Sum
   | linEq (cs : List Int) (xs : List Nat) (c : Int)
@@ -972,7 +972,8 @@ def prune : PK → Ctx → Option Ctx
   | .eq x y, ctx =>
     x.trySetMin (y.vmin ctx) ctx >>>= (fun c => x.trySetMax (y.vmax c) c)
       >>>= (fun c => y.trySetMin (x.vmin c) c) >>>= (fun c => y.trySetMax (x.vmax c) c)
-  | .neq _ _, ctx => some ctx
+  | .neq x y, ctx =>
+    if x.vmin ctx = x.vmax ctx ∧ y.vmin ctx = y.vmax ctx ∧ x.vmin ctx = y.vmin ctx then none else some ctx
   | .add x y s, ctx =>
     ctx.trySetMin s (x.vmin ctx + y.vmin ctx)
       >>>= (fun c => c.trySetMax s (x.vmax c + y.vmax c))
